@@ -9,6 +9,10 @@ the source: `C06_maxdepth`).  For namespaces of ANY size and nesting:
   C06_sub_unhooked / C06_too_deep — an un-hooked sub-module, or one at the depth limit, is not searched;
   C06_exposed     — a class exposed at the top level of a hooked module under a name no later entry re-binds is found
                     (`C06_found_last`: the last binding of a name wins, which is why class names must be distinct);
+  C06_found_nested — EVERY placement: the walk is exactly the sequence of its bindings (`walkMembers_eq`, `classDict_eq`), so
+                    with distinct class names every class the documented rule reaches — top level of a module with
+                    `_emd_hook is True`, or hooked sub-modules nested up to the documented depth (`C06_reaches_*`) — is
+                    what the lookup returns; five deep is in, six deep is out (examples);
   C06_custom_not_child — a group tagged `custom_<type>` is never a tree child (it belongs to its Custom node's body),
                     for all five custom types of the regenerated vocabulary.
 -/
@@ -161,6 +165,146 @@ theorem C06_exposed (mods : List (String × PyMember)) (k name : String) (id : N
     | nil => intro d; exact C06_found_last _ _ name id d after h
     | cons b bs ih => intro d; obtain ⟨bk, bm⟩ := b; simp only [List.cons_append, walkMembers]; exact ih _
   exact key before dic
+
+/-! ### every placement within the depth limit -/
+
+def hooked (h : Hook) : Bool := h == .yes || h == .one
+
+mutual
+/-- the (name, class) bindings the walk makes, in the order it makes them: EMD classes of the namespace, and those of
+    hooked sub-modules while the depth limit allows -/
+def bindings (maxdepth depth : Nat) : List (String × PyMember) → List (String × Nat)
+  | [] => []
+  | (k, m) :: rest => memberBindings maxdepth depth k m ++ bindings maxdepth depth rest
+def memberBindings (maxdepth depth : Nat) (k : String) : PyMember → List (String × Nat)
+  | .cls id isEmd => if isEmd then [(k, id)] else []
+  | .mod hook members => if hooked hook && depth + 1 < maxdepth then bindings maxdepth (depth + 1) members else []
+  | .other => []
+end
+
+def asetAll (dic : ClassDict) (bs : List (String × Nat)) : ClassDict := bs.foldl (fun a kv => aset kv.1 kv.2 a) dic
+
+theorem asetAll_append (dic : ClassDict) (a b : List (String × Nat)) : asetAll dic (a ++ b) = asetAll (asetAll dic a) b := by
+  simp [asetAll, List.foldl_append]
+
+mutual
+/-- the walk is exactly the sequence of its bindings -/
+theorem walkMembers_eq (maxdepth : Nat) : ∀ (ms : List (String × PyMember)) (depth : Nat) (dic : ClassDict),
+    walkMembers maxdepth depth dic ms = asetAll dic (bindings maxdepth depth ms)
+  | [], _, _ => rfl
+  | (k, m) :: rest, depth, dic => by
+    simp only [walkMembers, bindings, asetAll_append]
+    rw [walkMember_eq maxdepth k m depth dic, walkMembers_eq maxdepth rest depth _]
+theorem walkMember_eq (maxdepth : Nat) (k : String) : ∀ (m : PyMember) (depth : Nat) (dic : ClassDict),
+    walkMember maxdepth depth k dic m = asetAll dic (memberBindings maxdepth depth k m)
+  | .cls id isEmd, _, dic => by
+    simp only [walkMember, memberBindings]
+    split <;> simp [asetAll]
+  | .mod hook members, depth, dic => by
+    simp only [walkMember, memberBindings, hooked]
+    by_cases hc : ((hook == Hook.yes || hook == Hook.one) && decide (depth + 1 < maxdepth)) = true
+    · simp only [hc, if_true]
+      exact walkMembers_eq maxdepth members (depth + 1) dic
+    · simp only [hc, if_false, Bool.false_eq_true]
+      rfl
+  | .other, _, dic => by simp [walkMember, memberBindings, asetAll]
+end
+
+theorem alookup_asetAll_frame (n : String) : ∀ (bs : List (String × Nat)) (dic : ClassDict), n ∉ bs.map (·.1) →
+    alookup n (asetAll dic bs) = alookup n dic
+  | [], _, _ => rfl
+  | (k, v) :: r, dic, h => by
+    simp only [List.map_cons, List.mem_cons, not_or] at h
+    simp only [asetAll, List.foldl_cons]
+    have := alookup_asetAll_frame n r (aset k v dic) h.2
+    simp only [asetAll] at this
+    rw [this, alookup_aset_other k n v dic h.1]
+
+/-- with distinct names every binding the walk makes is what the lookup returns -/
+theorem alookup_asetAll_mem (n : String) (c : Nat) : ∀ (bs : List (String × Nat)) (dic : ClassDict), (bs.map (·.1)).Nodup →
+    (n, c) ∈ bs → alookup n (asetAll dic bs) = some c
+  | [], _, _, h => by cases h
+  | (k, v) :: r, dic, hn, h => by
+    simp only [List.map_cons, List.nodup_cons] at hn
+    simp only [asetAll, List.foldl_cons]
+    cases h with
+    | head =>
+      have := alookup_asetAll_frame n r (aset n c dic) hn.1
+      simp only [asetAll] at this
+      rw [this, alookup_aset_same]
+    | tail _ h' =>
+      have := alookup_asetAll_mem n c r (aset k v dic) hn.2 h'
+      simpa [asetAll] using this
+
+/-- all bindings made for `sys.modules` -/
+def allBindings (maxdepth : Nat) : List (String × PyMember) → List (String × Nat)
+  | [] => []
+  | (_, .mod .yes ms) :: rest => (if 0 < maxdepth then bindings maxdepth 0 ms else []) ++ allBindings maxdepth rest
+  | _ :: rest => allBindings maxdepth rest
+
+theorem classDict_eq (maxdepth : Nat) : ∀ (mods : List (String × PyMember)) (dic : ClassDict),
+    mods.foldl (classStep maxdepth) dic = asetAll dic (allBindings maxdepth mods)
+  | [], _ => rfl
+  | (k, m) :: rest, dic => by
+    simp only [List.foldl_cons]
+    rw [classDict_eq maxdepth rest]
+    cases m with
+    | cls id e => simp [classStep, allBindings]
+    | other => simp [classStep, allBindings]
+    | mod hk ms =>
+      cases hk with
+      | yes =>
+        simp only [classStep, allBindings, asetAll_append]
+        split
+        · rw [walkMembers_eq]
+        · simp [asetAll]
+      | absent => simp [classStep, allBindings]
+      | one => simp [classStep, allBindings]
+      | other => simp [classStep, allBindings]
+
+/-- C06, EVERY placement: a class that the documented rule reaches — exposed in a module with `_emd_hook is True`, or in a
+    hooked sub-module nested at most to the documented depth — is what the lookup returns for its name, provided class
+    names are distinct (among the searched bindings and the built-ins) -/
+theorem C06_found_nested (mods : List (String × PyMember)) (name : String) (id : Nat)
+    (hmem : (name, id) ∈ allBindings EmdGen.walkMaxDepth mods)
+    (hnd : ((allBindings EmdGen.walkMaxDepth mods).map (·.1)).Nodup) :
+    getClass EmdGen.walkMaxDepth mods name = some id := by
+  unfold getClass classDict
+  rw [classDict_eq]
+  exact alookup_asetAll_mem name id _ builtinDict hnd hmem
+
+/-- …and what the rule reaches: a binding of a hooked sub-module within the limit is a binding of the enclosing namespace -/
+theorem C06_reaches_submodule (maxdepth depth : Nat) (k : String) (hook : Hook) (sub : List (String × PyMember))
+    (before after : List (String × PyMember)) (x : String × Nat)
+    (hh : hooked hook = true) (hd : depth + 1 < maxdepth) (hx : x ∈ bindings maxdepth (depth + 1) sub) :
+    x ∈ bindings maxdepth depth (before ++ (k, .mod hook sub) :: after) := by
+  induction before with
+  | nil =>
+    simp only [List.nil_append, bindings, memberBindings, hh, hd, decide_true, Bool.and_self, if_true, List.mem_append]
+    exact Or.inl hx
+  | cons b bs ih =>
+    obtain ⟨bk, bm⟩ := b
+    simp only [List.cons_append, bindings, List.mem_append]
+    exact Or.inr ih
+
+/-- …and a class exposed in a namespace is a binding of it -/
+theorem C06_reaches_class (maxdepth depth : Nat) (name : String) (id : Nat) (before after : List (String × PyMember)) :
+    (name, id) ∈ bindings maxdepth depth (before ++ (name, .cls id true) :: after) := by
+  induction before with
+  | nil => simp [bindings, memberBindings]
+  | cons b bs ih =>
+    obtain ⟨bk, bm⟩ := b
+    simp only [List.cons_append, bindings, List.mem_append]
+    exact Or.inr ih
+
+-- a class five hooked sub-modules deep is reached, six deep is not (the documented depth)
+def chainOf : Nat → List (String × PyMember)
+  | 0 => [("Kdeep", .cls 42 true)]
+  | n + 1 => [("sub", .mod .yes (chainOf n))]
+example : allBindings EmdGen.walkMaxDepth [("top", .mod .yes (chainOf 5))] = [("Kdeep", 42)] := by decide
+example : allBindings EmdGen.walkMaxDepth [("top", .mod .yes (chainOf 6))] = [] := by decide
+example : getClass EmdGen.walkMaxDepth [("top", .mod .yes (chainOf 5))] "Kdeep" = some 42 :=
+  C06_found_nested _ _ _ (by decide) (by decide)
 
 /-- Custom attribute nodes are never tree children: no `custom_*` type is a data group type -/
 theorem C06_custom_not_child :
